@@ -358,7 +358,65 @@ def install_dates(I, cls):
 
     parser_error = ClassVal("ParserError", None, [I.exc_classes["ValueError"]], {}, external="exc:ParserError")
     I.exc_classes["ParserError"] = parser_error
-    ext["pendulum"] = {"date": Builtin("pendulum.date", pdate), "Date": p_date, "parse": Builtin("pendulum.parse", None),
+    def p_parse(ctx, text, exact=False, **kw):
+        """pendulum.parse(text, exact=True) on the ISO shapes the period grammar uses (assumed contract, validated natively):
+        YYYY -> 1 January; YYYY-MM -> first of the month; YYYY-MM-DD -> that date; YYYY-Www -> Monday of that ISO week;
+        YYYY-Www-D -> that day of the week; ParserError (a ValueError) when no such date exists or for any other text"""
+        from . import fmtterms
+        from .strings import Dec
+        ctx.assumed_ext.add("pendulum.parse(text, exact=True) on YYYY / YYYY-MM / YYYY-MM-DD / YYYY-Www / YYYY-Www-D: the date named, "
+                            "ParserError when it does not exist; ParserError on other shapes")
+        if exact is not True:
+            raise Unsupported("pendulum.parse without exact=True")
+        segs = fmtterms.norm(I, ctx, text).parts
+        # group: fields and literal characters -> shape string with F<k> placeholders
+        vals, shape = [], ""
+        i = 0
+        while i < len(segs):
+            sg = segs[i]
+            if isinstance(sg, Dec):
+                if sg.width is None:
+                    raise Unsupported("pendulum.parse of a numeral of unknown width")
+                vals.append(sg.e)
+                shape += "F%d" % sg.width
+                i += 1
+            elif sg in "0123456789":
+                j = i
+                while j < len(segs) and isinstance(segs[j], str) and segs[j] in "0123456789":
+                    j += 1
+                vals.append(z3.IntVal(int("".join(segs[i:j]))))
+                shape += "F%d" % (j - i)
+                i = j
+            else:
+                shape += sg
+                i += 1
+
+        def fail():
+            raise ExcVal(parser_error, ("Unable to parse string",))
+        if shape == "F4":
+            y, m, d = vals[0], z3.IntVal(1), z3.IntVal(1)
+        elif shape == "F4-F2":
+            y, m, d = vals[0], vals[1], z3.IntVal(1)
+        elif shape == "F4-F2-F2":
+            y, m, d = vals
+        elif shape in ("F4-WF2", "F4-WF2-F1"):
+            cy, w = vals[0], vals[1]
+            wd = vals[2] if len(vals) == 3 else z3.IntVal(1)
+            jan1 = cal.OM(12 * cy)
+            jan4 = jan1 + 3
+            monday1 = jan4 - cal.weekday0(jan4)
+            o = monday1 + 7 * (w - 1) + (wd - 1)
+            thursday = monday1 + 7 * (w - 1) + 3
+            ok = z3.And(cy >= 1, cy <= 9999, w >= 1, wd >= 1, wd <= 7, thursday < cal.OM(12 * cy + 12), o >= cal.OM(12), o < cal.OM(12 * 10000))
+            if not ctx.branch(ok):
+                fail()
+            return fresh_date(ctx, p_date, o, "parsed")
+        else:
+            fail()
+        if not ctx.branch(cal.valid(y, m, d)):
+            fail()
+        return mk_date(p_date, B.wrap(smt.simp(y)), B.wrap(smt.simp(m)), B.wrap(smt.simp(d)))
+    ext["pendulum"] = {"date": Builtin("pendulum.date", pdate), "Date": p_date, "parse": Builtin("pendulum.parse", p_parse),
                        "parsing": None, "Interval": interval}
     ext["pendulum.parsing.exceptions"] = {"ParserError": parser_error}
     ext["pendulum.parsing"] = {"exceptions": None}
